@@ -351,9 +351,48 @@ def v4(chk, repo):
             chk.violation("V4", key, wh, "%s = %seinsum(%s, %s, %s); expected %seinsum(%s, <%s>, <normals>)" % (nm, "-" if sg < 0 else "", got, a1, a2, "-" if sign < 0 else "", spec, first))
 
 
+def v5(chk, repo):
+    chk.rule("V5", "the lattice is built from the current geometry: in the aerodynamic geometry components that take a deformed mesh as input, no value stored to an output (or to the local array the outputs are cut from) is read from the set-up mesh of the surface dictionary, which is used for shapes and orientation tests only", min_decided=4)
+    for rel, cn in ((A + "vortex_mesh.py", "VortexMesh"), (A + "collocation_points.py", "CollocationPoints"), (A + "get_vectors.py", "GetVectors"), (A + "geometry.py", "VLMGeometry")):
+        try:
+            c = repo.cls(rel, cn)
+        except Exception:
+            chk.undecided("V5", cn, rel, "class not found")
+            continue
+        m = component_model(repo, c, domains=(SymX,))
+        for mn in ("compute",):
+            for r in m.runs.get(mn, []):
+                if r.final is None:
+                    continue
+                key = "%s.%s %s" % (cn, mn, sig_txt(r.sigma))
+                bad = None
+                n_st = 0
+                for e in r.events:
+                    if e.kind != "store":
+                        continue
+                    v = e.d.get("val")
+                    d = v.dom.get("SYMX") if v is not None else None
+                    n_st += 1
+                    if d is None:
+                        # fall back on the provenance recorded by the interpreter
+                        if v is not None and v.kind in ("arr", "cfgval") and v.cfg and v.cx and "['mesh']" in v.cx and ".shape" not in v.cx:
+                            bad = (e, v.cx)
+                        continue
+                    syms = d.free_symbols if not isinstance(d, sp.MatrixBase) else set().union(*[x.free_symbols for x in d])
+                    hit = [s_ for s_ in syms if s_.name.startswith("cfg:") and "['mesh']" in s_.name]
+                    if hit:
+                        bad = (e, str(hit[0]))
+                if bad:
+                    e, what = bad
+                    chk.violation("V5", key, "%s:%d" % (c.mod.rel, e.lineno), "%s is filled from %s, the mesh stored in the surface dictionary at set-up, not from the current def_mesh input: after any geometry change or deflection the lattice no longer follows the geometry" % (e.d.get("target"), what), algebraic=True)
+                elif n_st:
+                    chk.ok("V5", key, c.where, "%d stores, none from the set-up mesh" % n_st, algebraic=True)
+
+
 def run(chk, repo, tier):
     from .c06 import u6
     v1(chk, repo)
     v2(chk, repo)
     u6(chk, repo, rule="V3")
     v4(chk, repo)
+    v5(chk, repo)
